@@ -133,6 +133,69 @@ func genC16() {
 	facts["c16_calls"] = calls
 	facts["c16_gap_threshold"] = gap
 
+	// cmd: what Sync does with ServiceReplica's error, and how runCluster reacts to a stopped
+	// syncer (stop, resign, pause after hand-over / take-over) — the part of "is offered
+	// leadership" that no harness executes is at least pinned here
+	var cmdFacts []string
+	{
+		fset3, f3 := parseFile("cmd/syncer_api.go")
+		for _, d := range f3.Decls {
+			fd, ok := d.(*ast.FuncDecl)
+			if !ok || fd.Body == nil || fd.Name.Name != "Sync" {
+				continue
+			}
+			ast.Inspect(fd.Body, func(n ast.Node) bool {
+				switch x := n.(type) {
+				case *ast.IfStmt:
+					cmdFacts = append(cmdFacts, "Sync: if "+c12Render(fset3, x.Cond))
+				case *ast.ExprStmt:
+					txt := c12Render(fset3, x)
+					if strings.Contains(txt, ".Close(") || strings.Contains(txt, "WgAdd") {
+						cmdFacts = append(cmdFacts, "Sync: "+txt)
+					}
+				case *ast.AssignStmt:
+					if txt := c12Render(fset3, x); strings.Contains(txt, "ServiceReplica") {
+						cmdFacts = append(cmdFacts, "Sync: "+txt)
+					}
+				case *ast.ReturnStmt:
+					cmdFacts = append(cmdFacts, "Sync: "+c12Render(fset3, x))
+				}
+				return true
+			})
+		}
+		fset4, f4 := parseFile("cmd/syncer.go")
+		for _, d := range f4.Decls {
+			fd, ok := d.(*ast.FuncDecl)
+			if !ok || fd.Body == nil || fd.Name.Name != "runCluster" {
+				continue
+			}
+			ast.Inspect(fd.Body, func(n ast.Node) bool {
+				switch x := n.(type) {
+				case *ast.IfStmt:
+					c := c12Render(fset4, x.Cond)
+					if strings.Contains(c, "ErrLeaderHandover") || strings.Contains(c, "ErrLeaderTakeover") || strings.Contains(c, "ErrBreak") ||
+						strings.Contains(c, "role == cluster.RoleLeader") || strings.Contains(c, "role == cluster.RoleFollower") {
+						cmdFacts = append(cmdFacts, "runCluster: if "+c)
+					}
+				case *ast.ExprStmt:
+					txt := c12Render(fset4, x)
+					if strings.HasPrefix(txt, "runWait.Sleep(") || strings.HasPrefix(txt, "time.Sleep(") || strings.HasPrefix(txt, "sy.Stop(") ||
+						strings.HasPrefix(txt, "syncerWait.WgWait(") || strings.HasPrefix(txt, "syncerWait.Close(") || strings.HasPrefix(txt, "sc.clusterTicker(") {
+						cmdFacts = append(cmdFacts, "runCluster: "+txt)
+					}
+				case *ast.AssignStmt:
+					txt := c12Render(fset4, x)
+					if strings.Contains(txt, "elect.Resign(") || strings.Contains(txt, "sy.RunLeader()") || strings.Contains(txt, "sy.RunFollower(") ||
+						strings.Contains(txt, "syncerWait.Error()") {
+						cmdFacts = append(cmdFacts, "runCluster: "+txt)
+					}
+				}
+				return true
+			})
+		}
+	}
+	facts["c16_cmd"] = cmdFacts
+
 	// numeric response codes
 	_, pf := parseFile("pkg/api/golang/api.pb.go")
 	codes := map[string]int64{}
